@@ -10,7 +10,8 @@ from common import KnownFindings, MachineryError, Report, text_hash
 from export_ir import funcs_of
 from pairs import image_of, oracle_at, run_pair_batch
 
-W = {"i8": 1, "i16": 2, "i32": 4, "i64": 8}
+# element type -> byte pitch (widths that are not whole bytes are addressed with the rounded-up pitch everywhere in the compiler)
+W = {"i8": 1, "i16": 2, "i32": 4, "i64": 8, "i1": 1, "i4": 1, "i12": 2}
 
 
 def rowmajor(shape):
